@@ -180,6 +180,27 @@ async def drive(spec: dict[str, Any], run: Run) -> None:
         env.cleanup()
 
 
+async def script_echo(spec: dict[str, Any], run: Run) -> None:
+    """Deterministic trigger: log in, run the given command lines (latin-1,
+    may contain {n+} literals), LOGOUT."""
+    env = await make_env(spec.get('backend', 'dict'), {'u1': 'pw1'})
+    try:
+        c = Conn(1, Sched())
+        run.conns.append(c)
+        c.start(env.imap)
+        await c.greeting()
+        await c.simple(b'LOGIN u1 pw1')
+        for line in spec['cmds']:
+            if c.dead:
+                break
+            await c.simple(line.encode('latin-1'))
+            run.count('commands')
+        if not c.dead:
+            await c.simple(b'LOGOUT')
+    finally:
+        env.cleanup()
+
+
 async def asyncio_yield(c: Conn) -> None:
     loop = c.loop
     await loop.quiescent()     # type: ignore[attr-defined]
@@ -245,7 +266,10 @@ class C07(Check):
         run = Run()
 
         async def main(loop: L.CtlLoop) -> None:
-            await drive(spec, run)
+            if 'script' in spec:
+                await script_echo(spec, run)
+            else:
+                await drive(spec, run)
 
         try:
             L.run(main, max_steps=2_000_000)
